@@ -118,7 +118,7 @@ func (w *WUT) Chunk(cm *chain.Manager, ids map[types.BlockID]int, max int) (rus,
 
 // Proj is the wallet's state in the vocabulary of the specification.
 type Proj struct {
-	Utxo [][3]int `json:"utxo"` // id, value mod P, maturity height; sorted
+	Utxo [][4]int `json:"utxo"` // id, value mod P, maturity height, leaf index; sorted
 	Ev   [][4]int `json:"ev"`   // event id, block, inflow mod P, outflow mod P; sorted
 }
 
@@ -132,14 +132,14 @@ func (w *WUT) events() []wallet.Event {
 }
 
 func (w *WUT) Project(nm *Names, ids map[types.BlockID]int) Proj {
-	p := Proj{Utxo: [][3]int{}, Ev: [][4]int{}}
+	p := Proj{Utxo: [][4]int{}, Ev: [][4]int{}}
 	_, utxos, _ := w.Store.UnspentSiacoinElements()
 	for _, e := range utxos {
 		id, ok := nm.Known(types.Hash256(e.ID))
 		if !ok {
 			id = -1
 		}
-		p.Utxo = append(p.Utxo, [3]int{id, modP(e.SiacoinOutput.Value), int(e.MaturityHeight)})
+		p.Utxo = append(p.Utxo, [4]int{id, modP(e.SiacoinOutput.Value), int(e.MaturityHeight), int(e.StateElement.LeafIndex)})
 	}
 	for _, e := range w.events() {
 		id, ok := nm.Known(e.ID)
